@@ -1046,6 +1046,8 @@ def run(ctx: Ctx) -> None:
     n_cases = ctx.n(500, 4000)
     max_n = 6 if not ctx.thorough else 8
     for i in range(n_cases):
+        if ctx.out_of_time():
+            break
         case = gen_case(ctx, rng, max_n)
         ctx.count("gen:" + case["kind"])
         full = materialise(ctx, case)
